@@ -379,6 +379,14 @@ func cmdCheck(args []string) int {
 		return 2
 	}
 
+	// Free-running race pass (thorough tier of the properties that own concurrent code).
+	var raceSummary map[string]interface{}
+	if tier == "thorough" && raceProperty(prop) && only == "" && os.Getenv("VERIF_NORACE") == "" {
+		var fs []mc.Found
+		fs, raceSummary = runRacePass(prop, deadline)
+		deciding = append(deciding, fs...)
+	}
+
 	// Verdicts.
 	exit := 0
 	unstable := false
@@ -403,17 +411,27 @@ func cmdCheck(args []string) int {
 			continue
 		}
 		printedViol[id] = true
-		path := writeReplay(outDir, units, f, origOf[f.Monitor])
+		var path string
+		if f.Monitor == "data-race" {
+			path = writeRaceReport(outDir, f)
+		} else {
+			path = writeReplay(outDir, units, f, origOf[f.Monitor])
+		}
 		// A livelock is a property of the explored graph (a bottom SCC with a cycle), not of one
 		// step; determinism of the graph is what the replay validation of the search establishes.
-		confirmed := f.Monitor == "livelock" || confirmReplay(path)
+		// A race report is the detector's own observation of two unsynchronised accesses.
+		confirmed := f.Monitor == "livelock" || f.Monitor == "data-race" || confirmReplay(path)
 		if !confirmed {
 			fmt.Printf("UNSTABLE property=%s monitor=%s replay=%s (did not reproduce 5/5; not reported as violation)\n", prop, f.Monitor, path)
 			unstable = true
 			continue
 		}
 		fmt.Printf("VIOLATION property=%s replay=%s\n", prop, path)
-		fmt.Printf("  monitor=%s features=%v scenario=%s\n  %s\n  trace(%d)=%v\n", f.Monitor, f.Features, f.Scenario, f.Detail, len(f.Trace), f.Trace)
+		shown := f.Detail
+		if f.Monitor == "data-race" {
+			shown = strings.SplitN(shown, "\n", 2)[0] + " (full report in the replay file)"
+		}
+		fmt.Printf("  monitor=%s features=%v scenario=%s\n  %s\n  trace(%d)=%v\n", f.Monitor, f.Features, f.Scenario, shown, len(f.Trace), f.Trace)
 		violSummaries = append(violSummaries, map[string]interface{}{"monitor": f.Monitor, "detail": f.Detail, "features": f.Features, "scenario": f.Scenario, "trace": f.Trace, "replay": path})
 		if exit == 0 {
 			exit = 1
@@ -450,6 +468,9 @@ func cmdCheck(args []string) int {
 		"distinct_quiescent_outcomes": len(agg.Outcomes),
 		"steps_executed_incl_replay":  agg.Steps,
 		"samples":                     agg.Samples,
+	}
+	if raceSummary != nil {
+		cov["race_pass"] = raceSummary
 	}
 	if agg.States > 0 {
 		cov["states"] = agg.States
